@@ -10,6 +10,7 @@ import "unicode/utf8"
 
 var _ = verifReg("C10", VerifC10)
 var _ = verifReg("C09", VerifC09)
+var _ = verifReg("C09inv", VerifC09inv)
 
 // ---------- the wire tables (literals from the property statement) ----------
 
@@ -239,4 +240,36 @@ func c09sameEncoding(a, b []byte) bool {
 		return verifSameBytes(a, b)
 	}
 	return itemEq(l3lookup(a), l3lookup(b))
+}
+
+// C09, second clause: a claims-set that DECODED without error (valid or not) either
+// re-encodes to bytes that decode to the same getter results, or the encoder returns an error
+func VerifC09inv() {
+	l3install()
+	T, _, _, focus, _, _, _ := c04token()
+	T.put(99999, &vItem{kind: ikUint, u: 7}, ndBool("extra.key"))
+	buf := verifEncodeItem(T)
+	dec, err := DecodeClaimsFromCBOR(buf)
+	if err != nil {
+		if focus >= 0 {
+			ndCover("c09inv-undecodable", true)
+		}
+		return
+	}
+	valid := verifValid(dec)
+	buf2, err2 := EncodeClaimsToCBOR(dec)
+	if err2 != nil {
+		ndCover("c09inv-encoder-refuses", true)
+		return
+	}
+	dec2, derr2 := DecodeClaimsFromCBOR(buf2)
+	ndAssert("c09-invalid-reencoding-decodes", derr2 == nil)
+	if derr2 != nil {
+		return
+	}
+	ndAssert("c09-invalid-reencoding-decodes-to-the-same-getter-results", obsSame(obsOf(dec2), obsOf(dec), -1))
+	buf3, err3 := EncodeClaimsToCBOR(dec2)
+	ndAssert("c09-invalid-reencoding-is-stable", err3 == nil && c09sameEncoding(buf2, buf3))
+	ndCover("c09inv-invalid-roundtrip", !valid)
+	ndCover("c09inv-valid-roundtrip", valid)
 }
